@@ -41,6 +41,7 @@ type vAgentOpts struct {
 	Qci          []QciQosConfig
 	SliceMeter   SliceMeterConfig
 	Peers        []string
+	NodeID       string // cpiface.node_id (an address literal: resolvable offline); "" = the N4 address is the Node ID
 	AccessIP     string // BESS: overwrites upf.accessIP (host only has lo); UP4: p4rtciface.access_ip (CIDR)
 	CoreIP       string
 	SliceID      uint8
@@ -102,6 +103,7 @@ func vStartAgent(o vAgentOpts) (*vAgent, error) {
 	conf.CPIface.EnableUeIPAlloc = o.UEAlloc
 	conf.CPIface.UEIPPool = o.UEPool
 	conf.CPIface.Peers = o.Peers
+	conf.CPIface.NodeID = o.NodeID
 	conf.CPIface.Dnn = o.Dnn
 	conf.EnableEndMarker = o.EndMarker
 	conf.EnableHBTimer = o.HB
